@@ -278,8 +278,7 @@ impl IceConn {
     }
 
     pub(crate) fn set_remote_addr_from_signaling(&self, addr: SocketAddr, reason: &'static str) {
-        self.reset_latch();
-        *self.remote_addr.write() = addr;
+        self.reset_latch_to(Some(addr));
         trace!(
             "IceConn: signaling RTP remote set to {} ({}), latch reset",
             addr, reason
@@ -289,10 +288,18 @@ impl IceConn {
     /// Reset latching state before applying a remote SDP so a new source can
     /// be selected. Clears both the latch flag and any in-progress probation.
     pub fn reset_latch(&self) {
+        self.reset_latch_to(None);
+    }
+
+    /// Resets the latch and, for a signaling retarget, moves the RTP destination in the same
+    /// critical section, so that a packet arriving meanwhile latches either before the reset
+    /// (and is undone by it) or after it (and then stays).
+    fn reset_latch_to(&self, new_remote: Option<SocketAddr>) {
+        let mut probation = self.probation.lock();
         self.rtp_latched.store(false, Ordering::Relaxed);
         self.rtcp_latched.store(false, Ordering::Relaxed);
         let max = self.probation_max_packets.load(Ordering::Relaxed);
-        *self.probation.lock() = if self.latch_on_rtp.load(Ordering::Relaxed) && max > 0 {
+        *probation = if self.latch_on_rtp.load(Ordering::Relaxed) && max > 0 {
             Some(RtpProbationState {
                 candidates: Vec::new(),
                 total_packets: 0,
@@ -301,6 +308,9 @@ impl IceConn {
         } else {
             None
         };
+        if let Some(addr) = new_remote {
+            *self.remote_addr.write() = addr;
+        }
     }
 
     pub fn set_dtls_receiver(&self, receiver: Arc<dyn PacketReceiver>) {
@@ -571,8 +581,14 @@ impl PacketReceiver for IceConn {
                         let ts = u32::from_be_bytes([packet[4], packet[5], packet[6], packet[7]]);
                         let marker = (packet[1] & 0x80) != 0;
 
+                        // The probation mutex guards the whole latch state (probation table,
+                        // `rtp_latched`, and the destination the latch writes): packets can reach
+                        // this function from more than one socket read loop, and signaling resets
+                        // the latch from yet another task.
                         let mut probation_guard = self.probation.lock();
-                        if let Some(ref mut prob) = *probation_guard {
+                        if self.rtp_latched.load(Ordering::Relaxed) {
+                            // Another packet committed the latch while this one waited.
+                        } else if let Some(ref mut prob) = *probation_guard {
                             prob.total_packets = prob.total_packets.saturating_add(1);
 
                             let pos = prob.candidates.iter().position(|c| c.addr == addr);
@@ -656,15 +672,15 @@ impl PacketReceiver for IceConn {
                             }
 
                             if let Some(win_addr) = winner {
-                                // Commit the latch.
-                                *probation_guard = None; // drop state
-                                drop(probation_guard);
-
+                                // Commit the latch (still holding the guard: a packet that
+                                // passed the unlatched test above must not find an empty
+                                // table and latch a second time).
                                 // `current_remote` is stale here: the provisional
                                 // update above may already have moved remote_addr to
                                 // this packet's source, which need not be the winner.
                                 *self.remote_addr.write() = win_addr;
                                 self.rtp_latched.store(true, Ordering::Relaxed);
+                                *probation_guard = None; // drop state
                                 trace!(
                                     "IceConn: RTP latched to {} after probation \
                                          (expected_ssrc={}, total_obs={})",
